@@ -288,7 +288,7 @@ theorem getDims_mem (arrays : List (List Axis)) (d : String) :
 def havingAxes (arrays : List (List Axis)) (d : String) : List Axis :=
   arrays.filterMap (fun axes => axes.find? (·.name == d))
 
-def alignDims (arrays : List (List Axis)) : Option String → List String
+def alignedDims (arrays : List (List Axis)) : Option String → List String
   | none => getDims arrays
   | some d => [d]
 
@@ -296,12 +296,12 @@ def alignDims (arrays : List (List Axis)) : Option String → List String
 axes of that name (sorted when asked) -/
 theorem getAlignedAxes_ok (arrays : List (List Axis)) (join : Join) (axis : Option String) (sort : Bool)
     (commons : List Axis) (h : getAlignedAxes arrays join axis sort false = .ok commons) :
-    commons.length = (alignDims arrays axis).length ∧
-    ∀ i (hi : i < (alignDims arrays axis).length) (ho : i < commons.length),
-      ∃ ax, commonAxis join (havingAxes arrays (alignDims arrays axis)[i]) = some ax ∧
+    commons.length = (alignedDims arrays axis).length ∧
+    ∀ i (hi : i < (alignedDims arrays axis).length) (ho : i < commons.length),
+      ∃ ax, commonAxis join (havingAxes arrays (alignedDims arrays axis)[i]) = some ax ∧
         commons[i] = if sort then axisSort ax else ax := by
   unfold getAlignedAxes at h
-  obtain ⟨hl, hs⟩ := exMapM_ok _ (alignDims arrays axis) _ h
+  obtain ⟨hl, hs⟩ := exMapM_ok _ (alignedDims arrays axis) _ h
   refine ⟨hl, ?_⟩
   intro i hi ho
   have := hs i hi ho
